@@ -229,8 +229,8 @@ CLAIMED['C12'] = dict(
          'find_one_and_update/replace/delete (both return modes) and aggregate $project and are '
          'compared with Impl and Spec; directly on python every result must be a sub-document of '
          'the stored one and counts/order equal the unprojected query.',
-    note='Known findings (7): mixedarray, exclscalar, aggdroparr, slicelimit, sliceskip, '
-         'slicealone, argmutated. Computed $project fields, positional projection and mixed '
+    note='Known findings (6): mixedarray, exclscalar, aggdroparr, slicelimit, sliceskip, '
+         'slicealone (argmutated was fixed). Computed $project fields, positional projection and mixed '
          'include/exclude are out of scope.')
 
 CLAIMED['C06'] = dict(
